@@ -43,6 +43,30 @@ T = {
  "C19b": ("C19", "migrations.go: Initiator copied from old.Sender", "upgrade of a v2 store that holds a pull channel"),
  "C20a": ("C20", "graphsync.go Transport.CleanupChannel: defer-unlock tidy-up runs ch.cleanup() under dtChannelsLk", "gsReqRecdHook processing a request for channel X while the FSM runs CleanupChannel(X)"),
  "C20b": ("C20", "caches.go progress cache entries shared by pointer; progress() reads dataLimit without the lock", "block reports and a data-limit change on one channel from different goroutines (visible under -race only)"),
+ # ---- round 2 (second, independent set of sub-agents; same protocol)
+ "C01r2a": ("C01", "impl/impl.go processValidationUpdate: reply's Paused flag taken from result.ForcePause instead of LeaveRequestPaused(chst)", "a finalization that takes more than one validation round (update while Finalizing that is accepted, not ForcePause, still RequiresFinalization)"),
+ "C01r2b": ("C01", "migrations.go MigrateChannelState2To3: 'Queued: old.Queued' lost while reordering the literal", "a sender persisted by the previous release, interrupted mid-transfer, upgraded, restarted and completed (Queued total short)"),
+ "C03r2a": ("C03", "manager.go LeaveRequestPaused: data-limit test became an early return ahead of the finalization test", "responder in Finalizing + update with RequiresFinalization and a non-zero DataLimit above current progress"),
+ "C03r2b": ("C03", "impl/events.go OnChannelCompleted: BeginFinalizing skipped when already Finalizing, falling through to Complete", "a second transport completion (restart) while the responder waits for final settlement"),
+ "C04r2a": ("C04", "impl/receiver.go receiveRequest: '(IsNew && Accepted) || IsRestart' opens the transport for a rejected push restart", "a push restart request whose re-validation is rejected"),
+ "C04r2b": ("C04", "impl/receiving_requests.go recordAcceptedValidationEvents: data limit recorded only when lifted or raised", "a validator that lowers the data limit on restart or re-validation"),
+ "C05r2a": ("C05", "graphsync.go processExtension: channel check reduced to 'we are the responder/initiator and the transfer id matches'", "a third peer whose graphsync request/response carries a message for a channel between two other peers"),
+ "C05r2b": ("C05", "impl/restart.go validateRestartRequest: base CID compared by multihash only", "a restart request repeating the root as a different CID version/codec with the same hash"),
+ "C06r2a": ("C06", "impl/impl.go RestartDataTransferChannel returns early for a self-paused channel, before the cleaning-up test", "a channel persisted while cleaning up whose pause flag is set; process restart; RestartDataTransferChannel"),
+ "C06r2b": ("C06", "channels.go: terminal states cached in memory by dispatch and served by GetByID without reading the store", "a terminal transition whose datastore write is still pending/failed when the state is queried"),
+ "C07r2a": ("C07", "caches.go updateIfGreater: single CAS attempt instead of the retry loop", "two reports above the mark racing: the loser is dropped although it is above the winner's index"),
+ "C07r2b": ("C07", "migrations.go MigrateChannelState2To3 drops the Queued byte total (same edit as C01r2b, delivered independently)", "upgrade of a v2 store holding a sender with progress"),
+ "C09r2a": ("C09", "impl/impl.go CloseDataTransferChannel: the goroutine's cancel-message context derived from the caller's ctx", "a caller that cancels its context right after the close call returns (the usual defer cancel())"),
+ "C10r2a": ("C10", "channels_fsm.go: CompleteCleanupOnRestart just-records for some cleanup states (equivalent to an existing self-test variant)", "restart of a channel persisted in a cleanup state"),
+ "C10r2b": ("C10", "impl/receiver.go receiveRequest: channel state for the push restart read before OnRequestReceived and its error ignored", "a push restart whose processing changes the recorded progress (or a failed lookup): wrong skip count"),
+ "C14r2a": ("C14", "channelmonitor.go doRestartChannel: recursion turned into a loop that counts locally and writes the counter back at the end", "data progress (counter reset) arriving during the restart back-off is overwritten"),
+ "C14r2b": ("C14", "impl/impl.go Open*DataChannel: monitor added only after the request was sent", "an Accept that arrives before AddPushChannel runs: the accept timeout closes a healthy channel"),
+ "C19r2a": ("C19", "internalchannel.go CborGenCompatibleNode marshals typed nodes without taking their representation (same defect class as C06b)", "a typed bindnode voucher whose representation differs from its type-level view; reopen"),
+ "C19r2b": ("C19", "impl/restart.go restartManagerPeerReceive*: recordAcceptedValidationEvents called after re-validation", "a responder-side restart whose re-validation returns a voucher result: recorded although never sent"),
+ "C16r2a": ("C16", "graphsync.go processExtension: channel check drops the transfer id (peers only)", "two channels between the same pair of peers: a message for one applied through the other's graphsync request"),
+ "C16r2b": ("C16", "graphsync.go gsBlockSentHook: the on-wire early return removed, flag passed as 'unique' instead", "restart with do-not-send-first-blocks: skipped blocks fire DataSent events"),
+ "C20r2a": ("C20", "graphsync.go ChannelsForPeer: looks the channel up through getDTChannel (RLock) while already holding dtChannelsLk.RLock", "a writer (trackDTChannel/CleanupChannel) arriving between the two read locks"),
+ "C20r2b": ("C20", "channelmonitor.go new Monitor.ShutdownChannel + impl.go CloseDataTransferChannel calls it synchronously", "CloseDataTransferChannel called from inside an event subscriber (unsubscribe under the pubsub read lock)"),
 }
 rows = []
 for id in sorted(T):
